@@ -268,7 +268,57 @@ func rewriteVM(fset *token.FileSet, af *ast.File, total map[string]int) int {
 // guarded maps (collected from the current tree before rewriting).
 var envFields = map[string]bool{}
 
+// envFieldType: the declared type of each of those fields, as source text
+// ("bytes.Buffer", "*Env", "ExternalLookup"); envPtrMethods: "T.M" for every
+// method the env package declares with a pointer receiver.  Both decide whether
+// a method call on a field is a write to it (see mutatingCall).
+var envFieldType = map[string]string{}
+var envPtrMethods = map[string]bool{}
+
+func typeText(e ast.Expr) string {
+	switch t := e.(type) {
+	case *ast.Ident:
+		return t.Name
+	case *ast.SelectorExpr:
+		return typeText(t.X) + "." + t.Sel.Name
+	case *ast.StarExpr:
+		return "*" + typeText(t.X)
+	case *ast.ArrayType:
+		if t.Len == nil {
+			return "[]" + typeText(t.Elt)
+		}
+		return "[N]" + typeText(t.Elt)
+	case *ast.MapType:
+		return "map[" + typeText(t.Key) + "]" + typeText(t.Value)
+	}
+	return "?"
+}
+
+// mutatingCall: is e.<field>.<method>(...) a write to the field?  Yes for the
+// standard buffer types (every method but the observers) and for a struct type
+// of the env package whose method has a pointer receiver; pointers, interfaces,
+// maps, sync and atomic types are not written by a method call on them.
+func mutatingCall(field, method string) bool {
+	switch t := envFieldType[field]; t {
+	case "bytes.Buffer", "strings.Builder":
+		switch method {
+		case "String", "Len", "Cap", "Bytes", "Available", "AvailableBuffer":
+			return false
+		}
+		return true
+	default:
+		return envPtrMethods[t+"."+method]
+	}
+}
+
 func collectEnvFields(af *ast.File) {
+	for _, d := range af.Decls {
+		if fd, ok := d.(*ast.FuncDecl); ok && fd.Recv != nil && len(fd.Recv.List) == 1 {
+			if st, ok := fd.Recv.List[0].Type.(*ast.StarExpr); ok {
+				envPtrMethods[typeText(st.X)+"."+fd.Name.Name] = true
+			}
+		}
+	}
 	ast.Inspect(af, func(nd ast.Node) bool {
 		ts, ok := nd.(*ast.TypeSpec)
 		if !ok || ts.Name.Name != "Env" {
@@ -279,6 +329,7 @@ func collectEnvFields(af *ast.File) {
 				for _, nm := range f.Names {
 					if nm.Name != "rwMutex" && nm.Name != "values" && nm.Name != "types" {
 						envFields[nm.Name] = true
+						envFieldType[nm.Name] = typeText(f.Type)
 					}
 				}
 			}
@@ -315,6 +366,7 @@ func rewriteEnv(fset *token.FileSet, af *ast.File, total map[string]int) int {
 	mentions := func(st ast.Stmt) []acc {
 		var res []acc
 		writes := map[*ast.SelectorExpr]bool{}
+		atomicArg := map[*ast.SelectorExpr]bool{}
 		markLHS := func(e ast.Expr) {
 			for {
 				switch t := e.(type) {
@@ -356,6 +408,28 @@ func rewriteEnv(fset *token.FileSet, af *ast.File, total map[string]int) int {
 				if ce, ok := nd.(*ast.CallExpr); ok {
 					if id, ok := ce.Fun.(*ast.Ident); ok && (id.Name == "delete" || id.Name == "clear") && len(ce.Args) > 0 {
 						markLHS(ce.Args[0])
+					}
+					if fn, ok := ce.Fun.(*ast.SelectorExpr); ok {
+						// a mutating method called on a field writes the field
+						if fse, ok := fn.X.(*ast.SelectorExpr); ok && envFields[fse.Sel.Name] && mutatingCall(fse.Sel.Name, fn.Sel.Name) {
+							writes[fse] = true
+						}
+						// &e.f handed to a sync/atomic function is not a plain write
+						if pk, ok := fn.X.(*ast.Ident); ok && pk.Name == "atomic" {
+							for _, a := range ce.Args {
+								if u, ok := a.(*ast.UnaryExpr); ok && u.Op == token.AND {
+									if fse, ok := u.X.(*ast.SelectorExpr); ok {
+										atomicArg[fse] = true
+									}
+								}
+							}
+						}
+					}
+				}
+				if u, ok := nd.(*ast.UnaryExpr); ok && u.Op == token.AND {
+					// taking the address of a field: whoever holds it may write through it
+					if fse, ok := u.X.(*ast.SelectorExpr); ok && envFields[fse.Sel.Name] && !atomicArg[fse] {
+						writes[fse] = true
 					}
 				}
 				if kv, ok := nd.(*ast.KeyValueExpr); ok {
